@@ -76,6 +76,25 @@ func TestC08(t *testing.T) {
 				}
 				out.emit("flat", "c08", []string{cfg, ty.Sexp(), v.Sexp()}, obs)
 			}
+			// the uint8 helpers (callback form) on the same packing boundaries
+			for _, n := range []int{0, 1, 31, 32, 33, 63, 64, 65, 95, 96, 97, 1023, 1024, 1025} {
+				data := make([]byte, n)
+				rng.Read(data)
+				get := func(i uint64) uint8 { return data[i] }
+				obs := guard(func() string { return "root=" + rootHex(h.Uint8VectorHTR(get, uint64(n))) })
+				if obs == "PANIC" {
+					obs = "root=PANIC"
+				}
+				out.emit("u8", "u8htr", []string{cfg, "vec", hexBytes(data), "0"}, obs)
+				for _, lim := range []uint64{uint64(n), uint64(n) + 1, uint64(n) + 31, 1 << 20, 1 << 40} {
+					l := lim
+					obs := guard(func() string { return "root=" + rootHex(h.Uint8ListHTR(get, uint64(n), l)) })
+					if obs == "PANIC" {
+						obs = "root=PANIC"
+					}
+					out.emit("u8", "u8htr", []string{cfg, "list", hexBytes(data), hx(l)}, obs)
+				}
+			}
 			// packing boundaries of the dedicated helpers
 			for _, n := range []uint64{0, 1, 31, 32, 33, 63, 64, 65, 255, 256, 257, 512, 513} {
 				for _, lim := range []uint64{n, n + 1, 1 << 20, 1 << 40} {
